@@ -1712,3 +1712,51 @@ M("c04n", "fire", ["C04"], "is_layered is read when another (misspelt) option ex
 
     @property
     def major_version'''))
+
+# ---- early exits buried inside a branch (the condition of the exit must reach what follows the branch) ----
+M("c06x1", "fire", ["C06"], "composeinfo Release.serialize leaves before validate() from inside a branch (nested if)",
+  (CI, '''    def serialize(self, data):
+        self.validate()
+        data[self._section] = {}
+        data[self._section]["name"] = self.name
+        data[self._section]["version"] = self.version
+        data[self._section]["short"] = self.short
+        data[self._section]["type"] = self.type
+        if self.is_layered:''', '''    def serialize(self, data):
+        if self.is_layered:
+            layered = data.setdefault(self._section, {})
+            if not self.short:
+                layered["name"] = self.name
+                return
+        self.validate()
+        data[self._section] = {}
+        data[self._section]["name"] = self.name
+        data[self._section]["version"] = self.version
+        data[self._section]["short"] = self.short
+        data[self._section]["type"] = self.type
+        if self.is_layered:'''))
+M("c07x1", "fire", ["C07"], "composeinfo Compose.deserialize leaves before validate() from the else branch of a nested test",
+  (CI, '''            self.deserialize_1_0(data)
+        self.validate()
+
+    def deserialize_0_3(self, data):
+        self.id = data[self._section]["id"]''', '''            self.deserialize_1_0(data)
+            if self.final:
+                self.label = self.label or None
+            else:
+                if not self.label:
+                    return
+        self.validate()
+
+    def deserialize_0_3(self, data):
+        self.id = data[self._section]["id"]'''))
+M("c11x1", "fire", ["C11"], "get_variants: the type filter sits inside a branch that also skips every variant without arches",
+  (CI, '''            if types and variant.type not in types:
+                continue
+            if arch and arch not in variant.arches.union(["src"]):
+                continue''', '''            if types:
+                wanted = set(types)
+                if variant.type not in wanted or not variant.arches:
+                    continue
+            if arch and arch not in variant.arches.union(["src"]):
+                continue'''))
